@@ -517,8 +517,8 @@ func (p *parser) power(lhs ast.Expression) ast.Expression {
 
 			lhs = &ast.BinaryExpr{
 				Range: token.Range{
-					Start: expr.GetRange().Start,
-					End:   lhs.GetRange().End,
+					Start: lhs.GetRange().Start, // the degree is written first
+					End:   expr.GetRange().End,
 				},
 				Tok:      *tok,
 				Lhs:      expr,
